@@ -823,7 +823,9 @@ def oracle_trip(ctx: Ctx) -> None:
         probe = mk(ctx, "mem", ser_name)
         values += [G.sized_value(rng, probe.serializer.serialize, n) for n in (30, 31, 32, 200, 1023, 1024, 1025, 3000)]
         values += ["", "x" * 2000, [], {}, 0, None, "café \U0001f600", [CT.Color.RED, CT.Level.HIGH, CT.Tag.A], CT.Sev.ERROR, {"k": [CT.Slot.TWO, CT.Weight.HEAVY]}, CT.Perm.R, [CT.Perm.R | CT.Perm.W], ValueError("boom", 1),
-                   CT.AppError("a"), CT.Money({"amount": 1.5}), G.PREFIX[:-1], "_" + G.PREFIX]
+                   CT.AppError("a"), CT.Money({"amount": 1.5}), G.PREFIX[:-1], "_" + G.PREFIX,
+                   # text Python itself hands out (PEP 383: os.fsdecode(b"caf\xe9.txt")): lone surrogates, bare, nested, as a key, externalised
+                   "caf\udce9.txt", ["\ud800", {"k\udfff": "v\udc80"}], "\udce9" * 700, {"names": ["a\udcff" * 300, "b"]}]
         lengths = []
         for v in values:
             try:
@@ -1074,7 +1076,7 @@ def run(ctx: Ctx) -> None:
         "pickle and jsonpickle are black boxes: deser(ser v) = v is a hypothesis of cds_roundtrip, sampled by the trip oracle on generated values of a conservative domain",
         "the text layer of the json module (loads∘dumps = id on JSON trees, floats by bits, key order) is assumed and checked on every generated tree",
         "class resolution (_resolve_class), Enum(value) lookup, exception constructors taking their own args and from_json∘to_json = id are assumptions recorded in the model's registry",
-        "strings with lone surrogates cannot be utf-8 encoded (compute_args_id raises) and are outside the model",
+        "strings with lone surrogates cannot cross the utf-8 pipe to the model: they are covered by the trip oracle on the real code only (all serializers, inline and externalised)",
         "LRU capacity ≥ 1 is a hypothesis of the store theorems (local_cache_size = 0 makes serialize raise: cache_size_zero_refutation; noted, outside the property's quantifier)",
     ]
     if not ctx.quick:
